@@ -57,19 +57,24 @@ def _final(prog):
     return v
 
 
+BLOCKING = ('sleep', 'wait')
+
+
 def wait_loop(f, g):
-    """the polling loop: the (outermost) `while` whose body sleeps"""
+    """the polling loop: the (outermost) `while` whose body blocks - it sleeps
+    (`time.sleep(T)`) or waits on something (`<event>.wait(T)`, R15.7 decides
+    who wakes it; `<entity>.wait(..)`, R15.8 decides the hand-over)"""
     heads = []
     for h, a in g.loop_ast.items():
         if isinstance(a, ast.While) and any(
-                call_name(c).split('.')[-1] == 'sleep' for c in calls_in(a)):
+                call_name(c).split('.')[-1] in BLOCKING for c in calls_in(a)):
             heads.append(h)
     heads = [h for h in heads
              if not any(o in g.nodes[h].loops for o in heads if o != h)]
     if len(heads) != 1:
         raise AnalysisError('UNRECOGNISED-IDIOM %s: expected exactly one '
-                            'polling `while` loop with a sleep() in its body, '
-                            'found %d' % (f.where, len(heads)))
+                            'polling `while` loop with a sleep() / wait() in '
+                            'its body, found %d' % (f.where, len(heads)))
     return heads[0]
 
 
@@ -560,16 +565,36 @@ def _final_atom(prog, f, atom, final, aliases):
     return 1 if isinstance(op, ast.In) else -1
 
 
-def _timeout_atom(f, atom, tname):
+def _sign_cmp(sign, op, c):
+    """truth of `<number of the given sign> op c` for a numeric constant c:
+    True / False, or None when it depends on the number"""
+    import operator
+    fn = {ast.Lt: operator.lt, ast.LtE: operator.le, ast.Gt: operator.gt,
+          ast.GtE: operator.ge, ast.Eq: operator.eq,
+          ast.NotEq: operator.ne}.get(type(op))
+    if fn is None:
+        return None
+    if sign == 'zero':
+        return bool(fn(0, c))
+    big = 1e300 if sign == 'pos' else -1e300
+    tiny = 1e-300 if sign == 'pos' else -1e-300
+    a, b = bool(fn(big, c)), bool(fn(tiny, c))
+    return a if a == b else None
+
+
+def _timeout_atom(f, atom, tname, val='pos'):
     """truth value of a test on the timeout once it has expired: True / False /
-    None (not about the timeout)"""
+    None (not about the timeout).  `val` is the sign of the timeout the
+    function was given: 'pos' (a timeout as the API means it), 'zero' or
+    'neg' (what a caller may compute from its own timeout, R15.8) - an
+    elapsed time is >= any of them once the timeout has expired"""
     if isinstance(atom, ast.Name) and atom.id == tname:
-        return True
+        return val != 'zero'
     if not reads_name(atom, tname):
         return None
     if isinstance(atom, ast.Call) and dotted(atom.func) == 'bool' and \
             len(atom.args) == 1 and not atom.keywords:
-        return _timeout_atom(f, atom.args[0], tname)
+        return _timeout_atom(f, atom.args[0], tname, val)
     if isinstance(atom, ast.Compare) and len(atom.ops) == 1:
         op = atom.ops[0]
         l, r = atom.left, atom.comparators[0]
@@ -581,6 +606,17 @@ def _timeout_atom(f, atom, tname):
                 return True
             if isinstance(op, (ast.Is, ast.Eq)):
                 return False
+        if val != 'pos' and isinstance(l, ast.Name) and l.id == tname and \
+                isinstance(r, ast.Constant) and \
+                isinstance(r.value, (int, float)) and \
+                not isinstance(r.value, bool):
+            # <timeout> op <number>: decided by the sign of the timeout
+            tv = _sign_cmp(val, op, r.value)
+            if tv is not None:
+                return tv
+            raise AnalysisError('UNRECOGNISED-IDIOM %s: test `%s` on a %s '
+                                'timeout is not decided by its sign'
+                                % (f.where, short(atom, 60), val))
         lt, rt = reads_name(l, tname), reads_name(r, tname)
         if lt != rt:
             # <timeout> op <elapsed>   /   <elapsed> op <timeout>
@@ -619,16 +655,17 @@ def _timeout_view(f, g, node, tname):
     return substitute(atom, mapping) if mapping else atom
 
 
-def _timeout_truth(prog, f, g, node, tname, cache):
-    """truth of the test of a cfg node once the timeout has expired (True /
-    False / None: not about the timeout); predicates extracted into helpers
-    are looked into"""
+def _timeout_truth(prog, f, g, node, tname, cache, val='pos'):
+    """truth of the test of a cfg node once the timeout (of sign `val`) has
+    expired (True / False / None: not about the timeout); predicates extracted
+    into helpers are looked into"""
     if node.id not in cache:
         atom = _timeout_view(f, g, node, tname)
         body = inline_pred(prog, f, atom) if isinstance(atom, ast.Call) \
             else None
         cache[node.id] = atom if body is None else body
-    return truth3(cache[node.id], lambda x: _timeout_atom(f, x, tname))
+    return truth3(cache[node.id],
+                  lambda x: _timeout_atom(f, x, tname, val))
 
 
 SHRINK_CALLS = ('remove', 'pop', 'popleft', 'discard', 'clear',
@@ -699,10 +736,13 @@ MUT = {'append', 'extend', 'insert', 'add', 'update', 'setdefault',
        'appendleft'}
 
 
-def loop_has_infinite_path(prog, f, g, head, assume, final, tname):
+def loop_has_infinite_path(prog, f, g, head, assume, final, tname,
+                           tval='pos'):
     """abstract interpretation of the polling loop under `assume`
     ('final': every awaited entity is in a final state and stays there;
-     'timeout': a timeout was given and has expired).
+     'timeout': a timeout was given and has expired; `tval` is the sign of
+     the value given as timeout - 'pos' for the public API, 'zero' / 'neg'
+     for what a delegating caller may hand down, R15.8).
     Returns (witness literals | None, number of product states)"""
     body = g.loop_body[head] | {head}
     aliases = _state_aliases(f, g, head)
@@ -731,7 +771,7 @@ def loop_has_infinite_path(prog, f, g, head, assume, final, tname):
                         if tv is not None and tv != want:
                             return None
             if assume == 'timeout':
-                tv = _timeout_truth(prog, f, g, node, tname, tviews)
+                tv = _timeout_truth(prog, f, g, node, tname, tviews, tval)
                 if tv is not None and tv != want:
                     return None
             x = None
